@@ -17,7 +17,7 @@ def pre_dm(VERIF):
                ["-S", "-emit-llvm", "-o", ll, os.path.join(repo, DM_CPP)])
         names = [mm.group(1).strip('"') for mm in (re.search(r'@("[^"]+"|[\w.$]+)\(', l) for l in open(ll) if l.startswith("define ")) if mm]
         want = [n for n in names if WANT_RE.match(n)]
-        env = dict(os.environ); env["IR2C_EH"] = "1"
+        env = dict(os.environ); env["IR2C_EH"] = "1"; env["IR2C_TYPED_ALLOCA"] = "1"; env["IR2C_RPO"] = "1"
         gen.sh([sys.executable, os.path.join(VERIF, "ir2c", "ir2c.py"), ll, c] + want, env=env)
         txt = open(c).read()
         # layout facts the harness mirrors rely on
